@@ -1,7 +1,6 @@
 package nhcluster
 
 import (
-	"bytes"
 	"encoding/binary"
 	"encoding/json"
 	"fmt"
@@ -373,6 +372,8 @@ type kvImage struct {
 	Data    map[string]string
 	Applied uint64
 	Count   uint64
+	// altered: what readImage found wrong with the filler that follows the image ("" = intact)
+	altered string
 }
 
 func (c *kvCore) image() kvImage {
@@ -422,12 +423,32 @@ func writeImage(w io.Writer, img kvImage, pad int) error {
 		return err
 	}
 	if pad > 0 {
-		if _, err := w.Write(bytes.Repeat([]byte{0xAB}, pad)); err != nil {
+		// position dependent filler: a block of the image that ends up in the place of
+		// another one (or is altered in transit) is noticed by readImage
+		if _, err := w.Write(padBytes(pad)); err != nil {
 			return err
 		}
 	}
 	return nil
 }
+
+func padByte(i int) byte { return byte(i*131 + i>>8*29 + i>>16*7 + 0xAB) }
+
+var padCache []byte
+
+func padBytes(n int) []byte {
+	padMu.Lock()
+	defer padMu.Unlock()
+	for len(padCache) < n {
+		padCache = append(padCache, padByte(len(padCache)))
+	}
+	return padCache[:n]
+}
+
+var padMu sync.Mutex
+
+// ImagePadAltered counts images whose filler did not read back as written
+var ImagePadAltered int64
 
 func readImage(r io.Reader) (kvImage, error) {
 	var img kvImage
@@ -446,11 +467,21 @@ func readImage(r io.Reader) (kvImage, error) {
 	if err := json.Unmarshal(data, &img); err != nil {
 		return img, err
 	}
-	_, _ = io.Copy(io.Discard, r)
+	rest, _ := io.ReadAll(r)
+	for i, b := range rest {
+		if b != padByte(i) {
+			atomic.AddInt64(&ImagePadAltered, 1)
+			img.altered = fmt.Sprintf("image filler altered at offset %d of %d (got %#x, written %#x)", i, len(rest), b, padByte(i))
+			break
+		}
+	}
 	return img, nil
 }
 
 func (c *kvCore) install(img kvImage) {
+	if img.altered != "" {
+		c.rec.Violate("snapshot-image-altered", "%s %s: the image handed to RecoverFromSnapshot (applied index %d) is not what SaveSnapshot wrote: %s", c.kind, c.name, img.Applied, img.altered)
+	}
 	c.rec.mu.Lock()
 	if c.rec.RecoveredBy == nil {
 		c.rec.RecoveredBy = map[string][]uint64{}
